@@ -3,7 +3,15 @@
 import json, os, re, sys
 d = sys.argv[1]
 kf = json.load(open("/verif/known_findings.json"))
-known = {(f["property"], f["rule"], f["key"]) for f in kf["findings"]}
+known = None
+
+def is_known(kf, pr, rule, key):
+    for f in kf["findings"]:
+        if f["rule"] != rule or f["property"] not in (pr, "*"):
+            continue
+        if f["key"] == key or (f.get("key_re") and re.match(f["key_re"], key)):
+            return True
+    return False
 for f in sorted(os.listdir(d)):
     if not f.endswith(".txt"):
         continue
@@ -12,7 +20,7 @@ for f in sorted(os.listdir(d)):
         m = re.match(r'(C\d+) VIOLATION rule=(\S+) key="((?:[^"\\]|\\.)*)"(.*)', ln)
         if m:
             pr, rule, key = m.group(1), m.group(2), m.group(3).replace('\\"', '"')
-            if (pr, rule, key) not in known:
+            if not is_known(kf, pr, rule, key):
                 alarms.append(f"{pr} {rule}: {key}")
         elif ln.strip() and not ln.startswith("C"):
             notes.append(ln.strip()[:160])
